@@ -201,12 +201,12 @@ def probe_class():
     return _probe_cls
 
 
-def impl_lex(s):
-    """run the real lexer on `s`.  -> dict(outcome='ok'|'lexer-error'|'ctor-error'|'foreign-error', nodes=[…],
-    cls, lineno, pos, msg, kind)"""
+def impl_lex(s, preprocessor=None):
+    """run the real lexer on `s` (optionally with preprocessors).  -> dict(outcome='ok'|'lexer-error'|'ctor-error'|
+    'foreign-error', nodes=[…], cls, lineno, pos, msg, kind)"""
     from mako import exceptions
     P = probe_class()
-    lx = P(s)
+    lx = P(s, preprocessor=preprocessor) if preprocessor is not None else P(s)
     try:
         tree = lx.parse()
         return {"outcome": "ok", "nodes": lx.node_log, "tree": tree}
